@@ -8,6 +8,7 @@ import os
 import shutil
 import signal
 import tempfile
+import threading
 import time
 from pathlib import Path
 
@@ -57,11 +58,15 @@ PHASE = {"in_iteration": False}   # per-process flag: set while an iteration's t
 class LoggedTransition:
     """Wraps a transition: same interface (explicit attributes only), logs the statistics it returned."""
 
-    def __init__(self, inner, key, log, delays=None, draw=False, interrupt_at=None):
+    def __init__(self, inner, key, log, delays=None, draw=False, interrupt_at=None, signal_parent_at=None,
+                 signal_file=None):
         self.inner, self.key, self.log = inner, key, log
         self.delays = delays or {}
         self.draw = draw
         self.interrupt_at = interrupt_at   # (cid, it) at which to raise KeyboardInterrupt before sampling
+        # (cid, it) at which the process running the chain asks the harness (through a marker file watched by a thread in
+        # the PARENT) to deliver a real SIGINT to the parent process, and then carries on with the iteration
+        self.signal_parent_at, self.signal_file = signal_parent_at, signal_file
 
     @property
     def state_variables(self):
@@ -85,6 +90,9 @@ class LoggedTransition:
             PHASE["in_iteration"] = True
         if self.interrupt_at is not None and [cid, int(state.it)] == list(self.interrupt_at):
             raise KeyboardInterrupt
+        if self.signal_parent_at is not None and [cid, int(state.it)] == list(self.signal_parent_at):
+            open(self.signal_file, "w").close()
+            time.sleep(0.5)      # the parent is interrupted while this worker is inside the iteration
         d = self.delays.get(str(cid))
         if d:
             time.sleep(d)
@@ -265,7 +273,8 @@ SAMPLERS = ["generic", "static", "random", "multinomial", "slice"]
 
 
 @st.composite
-def config(draw, max_chain=4, max_warm=12, max_main=8, adapters=True, parallel=True, storages=True):
+def config(draw, max_chain=4, max_warm=12, max_main=8, adapters=True, parallel=True, storages=True,
+           type_changing_trace=False):
     n = draw(st.integers(1, 3))
     ad = draw(st.sampled_from(["none", "step", "step", "step+var", "step+covar"])) if adapters else "none"
     n_chain = draw(st.integers(1, max_chain))
@@ -302,7 +311,15 @@ def config(draw, max_chain=4, max_warm=12, max_main=8, adapters=True, parallel=T
         # generator created without a seed (checkpoint restore)
         "rng_init": draw(st.sampled_from(["seeded", "seeded", "jumped", "state-restored"])),
         "max_threads": draw(st.sampled_from([None, None, 1])),
+        # explicit regularisation target for the step-size adapter (None: derived from the initial search)
+        "reg_target": draw(st.sampled_from([None, None, None, 0.0, -1.0])),
+        # generic sampler: the adapters dictionary also has an entry (with no adapters) for the momentum transition
+        "empty_adapter_entry": draw(st.booleans()),
     }
+    if not type_changing_trace:
+        # only C13 uses the trace function whose return type depends on the state (its dtype handling is a recorded
+        # finding of C13; elsewhere it would only re-surface under other keys)
+        cfg["traces"] = [t for t in cfg["traces"] if t != "relu"]
     if cfg["adapters"] in ("step+var", "step+covar") and cfg["stager"] == "warmup":
         cfg["stager"] = "default"
     return cfg
@@ -363,8 +380,10 @@ def build(cfg, log, *, delays=None, draw=False, interrupt=None, wrap_user=None, 
         it_tr = mt.SliceDynamicIntegrationTransition(system, integ, max_tree_depth=cfg["depth"])
     mom_tr = mt.IndependentMomentumTransition(system)
     ia = interrupt[2:] if interrupt and interrupt[0] == "transition" else None
-    if interrupt and interrupt[0] not in ("transition", "trace", "trace-per-process"):
+    if interrupt and interrupt[0] not in ("transition", "trace", "trace-per-process", "parent-signal"):
         raise ValueError(interrupt)
+    sp = interrupt[2:] if interrupt and interrupt[0] == "parent-signal" else None
+    b.signal_file = os.path.join(os.path.dirname(log.directory), "deliver-sigint-to-parent") if sp else None
     with warnings.catch_warnings():
         warnings.simplefilter("ignore", DeprecationWarning)
         rng = make_rng(cfg)
@@ -372,7 +391,8 @@ def build(cfg, log, *, delays=None, draw=False, interrupt=None, wrap_user=None, 
             trans = {
                 "momentum": LoggedTransition(mom_tr, "momentum", log, interrupt_at=ia if interrupt and interrupt[1] == "momentum" else None),
                 "integration": LoggedTransition(it_tr, "integration", log, delays, draw,
-                                                interrupt_at=ia if interrupt and interrupt[1] == "integration" else None),
+                                                interrupt_at=ia if interrupt and interrupt[1] == "integration" else None,
+                                                signal_parent_at=sp, signal_file=b.signal_file),
             }
             b.stat_keys = [("integration", "integration")]
             if cfg.get("second"):
@@ -397,7 +417,8 @@ def build(cfg, log, *, delays=None, draw=False, interrupt=None, wrap_user=None, 
                 interrupt_at=ia if interrupt and interrupt[1] == "momentum" else None)
             tr["integration_transition"] = LoggedTransition(
                 tr["integration_transition"], "integration", log, delays, draw,
-                interrupt_at=ia if interrupt and interrupt[1] == "integration" else None)
+                interrupt_at=ia if interrupt and interrupt[1] == "integration" else None,
+                signal_parent_at=sp, signal_file=b.signal_file)
             tr["zz_record"] = Recorder(log, system if record_metric else None)
             b.int_key = "integration_transition"
             b.stat_keys = [("integration_transition", "integration")]
@@ -426,7 +447,7 @@ def build(cfg, log, *, delays=None, draw=False, interrupt=None, wrap_user=None, 
     # adapters
     ads = []
     if cfg["adapters"] != "none":
-        ads.append(ma.DualAveragingStepSizeAdapter())
+        ads.append(ma.DualAveragingStepSizeAdapter(log_step_size_reg_target=cfg.get("reg_target")))
     if cfg["adapters"] == "step+var":
         ads.append(ma.OnlineVarianceMetricAdapter())
     if cfg["adapters"] == "step+covar":
@@ -438,6 +459,15 @@ def build(cfg, log, *, delays=None, draw=False, interrupt=None, wrap_user=None, 
                 "windowed": mst.WindowedWarmUpStager(n_init_slow_window_iter=w[0], n_init_fast_stage_iter=w[1],
                                                      n_final_fast_stage_iter=w[2], slow_window_multiplier=w[3])}[cfg["stager"]]
     return b
+
+
+def adapters_dict(cfg, b):
+    """The adapters argument of the generic sampler: adapters act on the integration transition; optionally the
+    dictionary also names the momentum transition with an empty list."""
+    d = {b.int_key: b.adapter_list}
+    if cfg.get("empty_adapter_entry") and not b.hmc:
+        d = {"momentum": [], **d}
+    return d
 
 
 class Watchdog(Exception):
@@ -471,7 +501,7 @@ def run(cfg, b, memdir=None, timeout=120, n_process="cfg"):
     if b.hmc:
         kw["adapters"] = b.adapter_list if (b.adapter_list or style != "none") else None
     else:
-        kw["adapters"] = {b.int_key: b.adapter_list} if b.adapter_list else ({} if style == "empty" else None)
+        kw["adapters"] = adapters_dict(cfg, b) if b.adapter_list else ({} if style == "empty" else None)
     kw["trace_funcs"] = b.trace_funcs
     import logging
 
@@ -480,6 +510,16 @@ def run(cfg, b, memdir=None, timeout=120, n_process="cfg"):
         logging.getLogger("mici.samplers").propagate = False   # keep interrupt tracebacks out of the check output
     old = signal.signal(signal.SIGALRM, _alarm)
     signal.alarm(timeout)
+    stop = threading.Event()
+    if getattr(b, "signal_file", None):
+        def watch(path=b.signal_file, pid=os.getpid()):
+            while not stop.is_set():
+                if os.path.exists(path):
+                    os.kill(pid, signal.SIGINT)     # what Ctrl-C delivers to the parent
+                    return
+                time.sleep(0.005)
+
+        threading.Thread(target=watch, daemon=True).start()
     try:
         if prog == "custom-class":
             # the stage-level bar still writes to stdout: swallow it
@@ -489,6 +529,7 @@ def run(cfg, b, memdir=None, timeout=120, n_process="cfg"):
     except Watchdog as e:
         raise HarnessError("watchdog: sample_chains did not return within the time limit (inconclusive)") from e
     finally:
+        stop.set()
         signal.alarm(0)
         signal.signal(signal.SIGALRM, old)
 
@@ -497,7 +538,7 @@ def stage_plan(cfg, b):
     """Stage lengths and recording flags as the sampler will use them (through the public stager API)."""
     from mici import stagers as mst
 
-    ads = {b.int_key: b.adapter_list} if b.adapter_list else None
+    ads = adapters_dict(cfg, b) if b.adapter_list else None
     stager = b.stager
     if stager is None:
         stager = mst.WarmUpStager() if (not b.adapter_list or all(a.is_fast for a in b.adapter_list)) \
